@@ -83,6 +83,16 @@ func run(dir string, out *bytes.Buffer, name string, args ...string) error {
 	return cmd.Run()
 }
 
+// workDir is the build directory of a check. A development run against another
+// checkout (VERIF_REPO) gets a private one, removed at the end, so that it can
+// run next to a check of the same property against /repo.
+func workDir(root, id string) string {
+	if os.Getenv("VERIF_REPO") != "" {
+		return filepath.Join(root, ".work", fmt.Sprintf("%s-alt%d", strings.ToLower(id), os.Getpid()))
+	}
+	return filepath.Join(root, ".work", strings.ToLower(id))
+}
+
 func repoStatus() string {
 	var b bytes.Buffer
 	run(repoDir(), &b, "git", "status", "--porcelain")
@@ -107,6 +117,9 @@ func main() {
 	} else {
 		code = runA(root, id, os.Args[2:])
 	}
+	if os.Getenv("VERIF_REPO") != "" {
+		os.RemoveAll(workDir(root, id))
+	}
 	if after := repoStatus(); after != before {
 		fmt.Printf("ENGINE-ERROR property=%s the check changed /repo: before=%q after=%q\n", id, before, after)
 		code = 2
@@ -122,7 +135,7 @@ func runA(root, id string, args []string) int {
 		fmt.Fprintf(os.Stderr, "vcheck: no check for %s\n", id)
 		return 2
 	}
-	work := filepath.Join(root, ".work", strings.ToLower(id))
+	work := workDir(root, id)
 	os.MkdirAll(work, 0o755)
 	bin := filepath.Join(work, "check")
 	var out bytes.Buffer
@@ -174,7 +187,7 @@ func runA(root, id string, args []string) int {
 // buildB rewrites the bus packages and the scenario packages from /repo's
 // current tree and builds the runner with the overlay.
 func buildB(root, id string, eb *engineB) (string, error) {
-	work := filepath.Join(root, ".work", strings.ToLower(id))
+	work := workDir(root, id)
 	os.RemoveAll(work)
 	ov := filepath.Join(work, "ov")
 	os.MkdirAll(ov, 0o755)
@@ -357,7 +370,7 @@ func replayB(root, id string, eb *engineB, file string) int {
 		Replay json.RawMessage `json:"replay"`
 	}
 	if json.Unmarshal(data, &wrap) == nil && len(wrap.Replay) > 0 {
-		tmp := filepath.Join(root, ".work", strings.ToLower(id), "replay.json")
+		tmp := filepath.Join(workDir(root, id), "replay.json")
 		os.WriteFile(tmp, wrap.Replay, 0o644)
 		file = tmp
 	}
